@@ -90,6 +90,10 @@ type prepared struct {
 	src    string           // mode stream
 	xArgs  []string
 	yArgs  []string
+	// params, when set, is the compiler parameter block that the streaming
+	// garbler of this session shares with other sessions of the process
+	// (sequences); nil = a fresh one per session.
+	params *utils.Params
 }
 
 // argStrings renders a party's input the way it is given on the command line
@@ -157,7 +161,7 @@ func prepare(s Session) (*prepared, error) {
 		if len(x) != p.nx || len(y) != p.ny {
 			return nil, fmt.Errorf("input width mismatch")
 		}
-		p.want = u64s(fp.Ref(p.gIn.Uint64(), p.eIn.Uint64()))
+		p.want = fp.ref(p.gIn, p.eIn)
 	case s.Gen != nil:
 		main := s.Gen.Main()
 		if main == nil || len(main.Params) != 2 {
@@ -464,7 +468,10 @@ func execute(p *prepared, corr *Corruption, record bool) (*runResult, error) {
 			if err != nil {
 				return nil, err
 			}
-			params := utils.NewParams()
+			params := p.params
+			if params == nil {
+				params = utils.NewParams()
+			}
 			params.Config = cfg
 			_, vals, err := compiler.New(params).Stream(gConn, gOT, "{data}",
 				strings.NewReader(p.src), p.xArgs, [][]int{gSizes, sizes})
